@@ -81,6 +81,7 @@ pub fn k3() -> Vec<u8> {
 
 pub fn k4_movie() -> LFragMovie {
     let run = |track: u32, base: Base, before: bool, psd: bool, cts: Option<u8>, tfdt_v: u8, t0: u64, n: usize, flags_mode: u8| LRun {
+        no_trun: false,
         track_id: track,
         base,
         frag_default_duration: if psd { None } else { Some(512) },
@@ -102,6 +103,7 @@ pub fn k4_movie() -> LFragMovie {
         ],
         mehd: Some(1),
         large_moof: false,
+                offsets_only: false,
     }
 }
 
@@ -136,7 +138,7 @@ pub fn k5() -> (Vec<u8>, Vec<u8>) {
 /// flags only, composition offsets only, all) and a `tfhd` with every optional field: one input per
 /// flag-gated shortcut of the fragment readers.
 pub fn k6() -> Vec<u8> {
-    let m = LFragMovie { movie_ts: 1000, tracks: vec![LFragTrack { id: 1, codec: Codec::Avc, timescale: 12800, trex_default_duration: 512 }], fragments: vec![], mehd: None, large_moof: false };
+    let m = LFragMovie { movie_ts: 1000, tracks: vec![LFragTrack { id: 1, codec: Codec::Avc, timescale: 12800, trex_default_duration: 512 }], fragments: vec![], mehd: None, large_moof: false, offsets_only: false };
     let mut all = init_nodes(&m);
     let mut trafs = vec![mfhd(1)];
     let shapes: [(bool, bool, bool, bool); 6] = [(false, false, false, false), (true, false, false, false), (false, true, false, false), (false, false, true, false), (false, false, false, true), (true, true, true, true)];
